@@ -7,7 +7,8 @@ From VV.M1 Require Export Oracles.
 Definition is_some {A} (o : option A) : bool := match o with Some _ => true | None => false end.
 
 (* a column definition as sea-query's prepare_column_def prints it: `name` type [NOT NULL] [DEFAULT e]
-   [PRIMARY KEY] [AUTO_INCREMENT], plus the COMMENT '...' that modify_column_comment.rs appends by hand *)
+   [PRIMARY KEY] [AUTO_INCREMENT] [COMMENT '...'] (ColumnSpec::Comment, or the COMMENT '...' that
+   modify_column_comment.rs appends by hand) *)
 Record coldef := mkColDef {
   cd_name : string;
   cd_type : string;            (* rendered type text: int, varchar(32), decimal(10, 2), ENUM('a', 'b'), binary(16), ... *)
@@ -15,7 +16,7 @@ Record coldef := mkColDef {
   cd_default : option string;  (* verbatim expression text *)
   cd_pk : bool;                (* inline PRIMARY KEY *)
   cd_auto : bool;              (* AUTO_INCREMENT *)
-  cd_comment : option string   (* unescaped comment text *) }.
+  cd_comment : option string   (* body of the COMMENT '..' literal as emitted: the text between the outer quotes, still escaped *) }.
 
 Record fkdef := mkFk {
   fk_name : string;
